@@ -93,10 +93,16 @@ pub fn run(cx: &mut Ctx) {
     // random programs: every transform family, joins with transformed sides, global combines with any fan-out
     let opts = GenOpts { max_steps: 10, max_rows: cx.budget(24, 120), barriers: true, joins: true, globals: true, nonlocal_batches: false };
     let rounds = cx.budget(350, 6000);
+    // the degree of real parallelism rotates over private rayon pools of 1, 2, 3, 4, 8 and 16 threads
+    let thread_counts: &[usize] = &[0, 1, 2, 3, 4, 8, 16];
     for i in 0..rounds {
+        let t = thread_counts[i % thread_counts.len()];
+        PAR_THREADS.store(t, std::sync::atomic::Ordering::SeqCst);
+        cx.count(&format!("rayon-threads:{}", if t == 0 { "default".to_string() } else { t.to_string() }));
         let p = gen_prog(&mut cx.rng, &opts);
         let all = i % 10 == 0;
         let modes = modes_for(cx, p.src.len(), all);
         check_prog(cx, &p, &modes, &o);
     }
+    PAR_THREADS.store(0, std::sync::atomic::Ordering::SeqCst);
 }
